@@ -54,7 +54,91 @@ type walker struct {
 	kwPos token.Pos // keyword of the defer/go statement whose call is being walked
 }
 
-func text(e ast.Expr) string { return types.ExprString(e) }
+// consts: the named constants (with a literal value) of the package being walked; they are printed
+// by VALUE, so that `path.Join(dir, "lock")` and `path.Join(dir, lockSubdir)` give the same fact.
+var consts = map[string]string{}
+
+// collectConsts gathers `const name = literal` declarations of all files of a package directory,
+// at package level and inside functions.
+func collectConsts(files []*ast.File) map[string]string {
+	m := map[string]string{}
+	for _, f := range files {
+		ast.Inspect(f, func(n ast.Node) bool {
+			gd, ok := n.(*ast.GenDecl)
+			if !ok || gd.Tok != token.CONST {
+				return true
+			}
+			for _, sp := range gd.Specs {
+				vs, ok := sp.(*ast.ValueSpec)
+				if !ok || len(vs.Values) != len(vs.Names) {
+					continue
+				}
+				for i, n := range vs.Names {
+					if bl, ok := vs.Values[i].(*ast.BasicLit); ok {
+						m[n.Name] = bl.Value
+					}
+				}
+			}
+			return true
+		})
+	}
+	return m
+}
+
+// fold returns e with every identifier that names a constant of the package replaced by its value
+// (identifiers in selector position are left alone).
+func fold(e ast.Expr) ast.Expr {
+	switch x := e.(type) {
+	case *ast.Ident:
+		if v, ok := consts[x.Name]; ok && x.Name != "_" {
+			return &ast.BasicLit{Kind: token.STRING, Value: v}
+		}
+	case *ast.ParenExpr:
+		return &ast.ParenExpr{X: fold(x.X)}
+	case *ast.BinaryExpr:
+		return &ast.BinaryExpr{X: fold(x.X), Op: x.Op, Y: fold(x.Y)}
+	case *ast.UnaryExpr:
+		return &ast.UnaryExpr{Op: x.Op, X: fold(x.X)}
+	case *ast.StarExpr:
+		return &ast.StarExpr{X: fold(x.X)}
+	case *ast.CallExpr:
+		c := &ast.CallExpr{Fun: x.Fun, Ellipsis: x.Ellipsis}
+		if _, isIdent := x.Fun.(*ast.Ident); !isIdent {
+			c.Fun = fold(x.Fun)
+		}
+		for _, a := range x.Args {
+			c.Args = append(c.Args, fold(a))
+		}
+		return c
+	case *ast.SelectorExpr:
+		return &ast.SelectorExpr{X: fold(x.X), Sel: x.Sel}
+	case *ast.IndexExpr:
+		return &ast.IndexExpr{X: fold(x.X), Index: fold(x.Index)}
+	case *ast.SliceExpr:
+		r := &ast.SliceExpr{X: fold(x.X), Slice3: x.Slice3}
+		if x.Low != nil {
+			r.Low = fold(x.Low)
+		}
+		if x.High != nil {
+			r.High = fold(x.High)
+		}
+		if x.Max != nil {
+			r.Max = fold(x.Max)
+		}
+		return r
+	case *ast.KeyValueExpr:
+		return &ast.KeyValueExpr{Key: x.Key, Value: fold(x.Value)}
+	case *ast.CompositeLit:
+		r := &ast.CompositeLit{Type: x.Type}
+		for _, el := range x.Elts {
+			r.Elts = append(r.Elts, fold(el))
+		}
+		return r
+	}
+	return e
+}
+
+func text(e ast.Expr) string { return types.ExprString(fold(e)) }
 
 func texts(l []ast.Expr) []string {
 	r := make([]string, len(l))
@@ -202,30 +286,105 @@ func (w *walker) stmt(s ast.Stmt, ctx []string) {
 		w.exprCalls(x.Cond, nil, ctx)
 		cond := text(x.Cond)
 		w.block(x.Body, with(ctx, "if "+cond))
+		// normal form: after an `if` whose body ends in `return`, an `else` is the fall-through:
+		// `if c {…; return a} else {B}` and `if c {…; return a}; B` give the same sites
+		ectx := with(ctx, "else "+cond)
+		if endsInReturn(x.Body) {
+			ectx = ctx
+		}
 		switch e := x.Else.(type) {
 		case nil:
 		case *ast.BlockStmt:
-			w.block(e, with(ctx, "else "+cond))
+			w.block(e, ectx)
 		default:
-			w.stmt(e, with(ctx, "else "+cond))
+			w.stmt(e, ectx)
 		}
 	case *ast.SwitchStmt:
 		w.stmt(x.Init, ctx)
-		tag := ""
-		if x.Tag != nil {
-			w.exprCalls(x.Tag, nil, ctx)
-			tag = text(x.Tag)
+		if x.Tag == nil {
+			// `switch { case c1: A; case c2: B; default: C }` is the chain `if c1 {A} else if c2 {B} else {C}`:
+			// same contexts as the chain gives
+			cur := ctx
+			var deflt *ast.CaseClause
+			for _, c := range x.Body.List {
+				cc := c.(*ast.CaseClause)
+				if cc.List == nil {
+					deflt = cc
+					continue
+				}
+				var conds []string
+				for _, e := range cc.List {
+					w.exprCalls(e, nil, cur)
+					conds = append(conds, text(e))
+				}
+				cond := strings.Join(conds, " || ")
+				for _, st := range cc.Body {
+					w.stmt(st, with(cur, "if "+cond))
+				}
+				cur = with(cur, "else "+cond)
+			}
+			if deflt != nil {
+				for _, st := range deflt.Body {
+					w.stmt(st, cur)
+				}
+			}
+			return
 		}
+		w.exprCalls(x.Tag, nil, ctx)
+		tag := text(x.Tag)
+		// normal form of a dispatch over constants: a clause that only falls through is merged into
+		// the next one; a clause that contains `default` is called `default`; `default` first, the others
+		// sorted by their (sorted) labels — the order of disjoint constant cases means nothing
+		type clause struct {
+			labels []string
+			deflt  bool
+			body   []ast.Stmt
+			exprs  []ast.Expr
+		}
+		var cls []clause
+		var pend clause
+		constant := true
 		for _, c := range x.Body.List {
 			cc := c.(*ast.CaseClause)
-			label := "default"
-			if cc.List != nil {
-				for _, e := range cc.List {
-					w.exprCalls(e, nil, with(ctx, "switch "+tag))
-				}
-				label = "case " + strings.Join(texts(cc.List), ", ")
+			if cc.List == nil {
+				pend.deflt = true
 			}
-			for _, st := range cc.Body {
+			for _, e := range cc.List {
+				pend.labels = append(pend.labels, text(e))
+				pend.exprs = append(pend.exprs, e)
+				if _, ok := fold(e).(*ast.BasicLit); !ok {
+					constant = false
+				}
+			}
+			if len(cc.Body) == 1 {
+				if br, ok := cc.Body[0].(*ast.BranchStmt); ok && br.Tok == token.FALLTHROUGH {
+					continue // merged into the next clause
+				}
+			}
+			pend.body = cc.Body
+			cls = append(cls, pend)
+			pend = clause{}
+		}
+		for i := range cls {
+			sort.Strings(cls[i].labels)
+		}
+		if constant {
+			sort.SliceStable(cls, func(i, j int) bool {
+				if cls[i].deflt != cls[j].deflt {
+					return cls[i].deflt
+				}
+				return strings.Join(cls[i].labels, ", ") < strings.Join(cls[j].labels, ", ")
+			})
+		}
+		for _, cl := range cls {
+			label := "default"
+			if !cl.deflt {
+				label = "case " + strings.Join(cl.labels, ", ")
+			}
+			for _, e := range cl.exprs {
+				w.exprCalls(e, nil, with(ctx, "switch "+tag))
+			}
+			for _, st := range cl.body {
 				w.stmt(st, with(ctx, "switch "+tag, label))
 			}
 		}
@@ -269,6 +428,14 @@ func (w *walker) deferred(c *ast.CallExpr, kw token.Pos, ctx []string) {
 	w.kwPos = token.NoPos
 }
 
+func endsInReturn(b *ast.BlockStmt) bool {
+	if b == nil || len(b.List) == 0 {
+		return false
+	}
+	_, ok := b.List[len(b.List)-1].(*ast.ReturnStmt)
+	return ok
+}
+
 func leanStr(s string) string {
 	var b strings.Builder
 	b.WriteByte('"')
@@ -309,6 +476,8 @@ func findFunc(dir, name string) (*ast.FuncDecl, string, error) {
 	sort.Strings(files)
 	var found *ast.FuncDecl
 	var where string
+	var parsed []*ast.File
+	defer func() { consts = collectConsts(parsed) }()
 	for _, f := range files {
 		if strings.HasSuffix(f, "_test.go") {
 			continue
@@ -327,6 +496,7 @@ func findFunc(dir, name string) (*ast.FuncDecl, string, error) {
 		if guarded {
 			continue
 		}
+		parsed = append(parsed, af)
 		for _, d := range af.Decls {
 			if fd, ok := d.(*ast.FuncDecl); ok && fd.Recv == nil && fd.Name.Name == name {
 				if found != nil {
@@ -337,7 +507,10 @@ func findFunc(dir, name string) (*ast.FuncDecl, string, error) {
 		}
 	}
 	if found == nil {
-		return nil, "", fmt.Errorf("function %s not found in %s", name, dir)
+		// not an error of the translator: the fact for this function is empty, and whatever theorem
+		// needs the behaviour it stood for says so
+		fmt.Fprintf(os.Stderr, "lockskel: note: no function %s in %s, its site list is empty\n", name, dir)
+		return &ast.FuncDecl{Name: ast.NewIdent(name), Type: &ast.FuncType{}, Body: &ast.BlockStmt{}}, "", nil
 	}
 	return found, where, nil
 }
@@ -416,7 +589,7 @@ func main() {
 		if i == len(an.sinks)-1 {
 			sep = ""
 		}
-		fmt.Fprintf(&b, "  ⟨%s, %s, %s, %s⟩%s\n", leanStr(s.fn), leanStr(s.owner), leanStr(s.name), leanStr(s.arg0), sep)
+		fmt.Fprintf(&b, "  ⟨%s, %s, %s, %s, %s⟩%s\n", leanStr(s.fn), leanStr(s.owner), leanStr(s.name), leanStr(s.arg0), leanStr(s.cat), sep)
 	}
 	b.WriteString("]\n\n")
 	fmt.Fprintf(&b, "/-- module functions with a loud sink site -/\ndef writerFns : List String := %s\n\n", leanList(an.writerFns()))
